@@ -245,7 +245,13 @@ m("C03", "other",
   "(C03_end_to_end_any_loss): the sender's stream, any sub-multiset of the tiles arriving in any order with at "
   "least one never, EOF, ACK, one NAK requesting exactly the undelivered bytes, the sender's answer = exactly the "
   "missing tiles (C03_sender_answers_nak, ansTiles_spec), completion at the tile delivering the last missing byte "
-  "(C03_receiver_recovers_any_loss_all), Finished/ACK, both idle, file identical. "
+  "(C03_receiver_recovers_any_loss_all), Finished/ACK, both idle, file identical. EITHER NAK MODE from the EOF "
+  "on (RecvG/WaitG are mode-independent: lsh_below; C03_receiver_recovers_from, C03_wait_recovers); immediate "
+  "mode while the data arrives (C03_tile_any_immediate, C03_receiver_any_history_immediate: each immediate NAK "
+  "requests exactly a gap nobody delivered) and with all immediate NAKs lost "
+  "(C03_receiver_recovers_any_loss_immediate); the NAK SEQUENCE LOST at k < limit consecutive expiries, "
+  "re-issued identically each time, then recovery (C03_nak_expiry_any, C03_nak_expiries_any, "
+  "C03_receiver_recovers_naks_lost). "
   "Lean 4 theorems (recovery mechanisms for all states; whole-run recovery from one loss by forward simulation "
   "+ list lemmas on the file with a hole) + exhaustive <=2-drop and sampled fault-schedule exploration "
   "(general liveness not proved)", "§6 C03, §11",
